@@ -513,6 +513,10 @@ func (s *Solver) Check(asserts []*term.Term, wantModel bool) (Result, map[string
 			}
 		}
 		res, model, e := s.run(name, qs, qv, wantModel)
+		if name == "z3-int" && res == Sat && LastIntHasUF {
+			// uninterpreted applications were free integers: only `unsat` carries over
+			res, model = Unknown, nil
+		}
 		st := s.Stats[name]
 		if st == nil {
 			st = &Stat{}
